@@ -8,7 +8,7 @@ import fcntl, glob, hashlib, json, os, random, shutil, struct, subprocess, sys, 
 
 VERIF = os.path.dirname(os.path.dirname(os.path.abspath(__file__)))
 REPO = os.environ.get("VERIF_REPO", "/repo")
-BUILD = os.path.join(VERIF, "_build")
+BUILD = os.environ.get("VERIF_BUILD", os.path.join(VERIF, "_build"))
 NCPU = os.cpu_count() or 4
 
 # ----------------------------------------------------------------------------
